@@ -119,7 +119,7 @@ fn weights(seed: u64, n: usize) -> Weights {
         );
         let k = r.below(9) as f64;
         eu.insert(l, (ExpectedUtility(k / 8.0, r.below(4) as f64), ExpectedUtility(1.0 - k / 8.0, r.below(4) as f64)));
-        let mut mk = |r: &mut Rng| {
+        let mk = |r: &mut Rng| {
             let mut p = Polynomial::<RealSemiring>::zero();
             let len = 1 + r.below(3) as usize;
             for i in 0..len {
